@@ -857,3 +857,22 @@ def check_end_of_source(R, rule, tonic, pf, rows):
     if tr is not None:
         R.check(any(en is True and k == 'None' for _, en, k in seen_rows), rule, 'trailers():server-ended:exists', where, 'already ended -> None')
     return tr
+
+
+def status_ctors_in(crate, term, depth=0):
+    """names of the Status constructors (Status::internal, ::out_of_range ..) a value can be built by — looking into the closures
+    handed to map_err / ok_or_else / unwrap_or_else on the way"""
+    out = set()
+    def visit(x):
+        if is_call(x) and 'status::Status::' in x[1] and 'Status::<' not in x[1]:
+            out.add(x[3])
+        if isinstance(x, tuple) and x and x[0] == 'agg' and isinstance(x[1], dict) and x[1].get('def') and x[1].get('kind') == 'closure' and depth < 3:
+            try:
+                cb = crate.body(re.compile('^' + re.escape(x[1]['def']) + '$'))
+            except CheckError:
+                return False
+            for _, t_ in mirlib.returned_terms(cb):
+                out.update(status_ctors_in(crate, t_, depth + 1))
+        return False
+    term_contains(term, visit)
+    return out
